@@ -179,6 +179,24 @@ func (p recvProp) Oracle(inp interface{}, obs Sx) (string, string) {
 	if nquit != 1 {
 		return "receive loop end not observed exactly once", "quit"
 	}
+	if !in.Component {
+		// the keepalive of the lost connection must have been told to stop when the loss is reported: the
+		// Disconnected handler of a StreamManager only returns once a new session is up
+		quitAt, discAt := -1, -1
+		for i, e := range syncLog {
+			switch e.L[0].Z {
+			case 9:
+				quitAt = i
+			case 5:
+				if discAt < 0 {
+					discAt = i
+				}
+			}
+		}
+		if discAt >= 0 && quitAt > discAt {
+			return "the keepalive quit channel was still open when the Disconnected handler started: the keepalive of the lost connection goes on during the outage", "quit-after-disconnected"
+		}
+	}
 	if endedBy == "close" && !in.Component {
 		// the server closed the stream: still a disconnection, but no error
 		if ndisc != 1 {
